@@ -110,6 +110,15 @@ func firstTok(line string) string {
 	return f[0]
 }
 
+// haproxyWord: the first word as HAProxy cuts a configuration line (space and tab)
+func haproxyWord(line string) string {
+	f := strings.FieldsFunc(line, func(r rune) bool { return r == ' ' || r == '\t' })
+	if len(f) == 0 {
+		return ""
+	}
+	return f[0]
+}
+
 func listed(kws []B) (star bool, set map[string]bool) {
 	set = map[string]bool{}
 	for _, k := range kws {
@@ -139,7 +148,11 @@ var kwPool = []string{"server", "acl", "http-request", "http-response", "use-ser
 var tokPool = []string{"server", "acl", "http-request", "http-response", "use-server", "mode", "option",
 	"tcp-request", "timeout", "stick-table", "default-server", "serv", "servers", "SERVER", "Server",
 	"http-req", "\"server\"", "server#", "server,", "no", "#", "http-request-x", "http", "use_backend", "*"}
-var wsPool = []string{"", "", " ", "  ", "\t", " \t ", "\v", "\f", "\r", "    ", "\t\t", " \v\f\r\t"}
+// blanks put in front of a token: the six ASCII ones, and what only Unicode calls white
+// space or does not show at all (NBSP, NEL, ideographic space, BOM, zero width space),
+// alone or after ASCII blanks -- annotation values are arbitrary UTF-8
+var wsPool = []string{"", "", " ", "  ", "\t", " \t ", "\v", "\f", "\r", "    ", "\t\t", " \v\f\r\t",
+	"\u00a0", "\u0085", "\u3000", " \u00a0", "\t\u3000 ", "\ufeff", "\u200b", "  \u0085\u00a0", "\u2028"}
 var sepPool = []string{" ", " ", "  ", "\t", "\v", "\f", "\r"}
 var restPool = []string{"srv001 127.0.0.1:8080", "x path /", "deny if x", "set-header x-id 1 if { path / }",
 	"tcp", "httplog", "server 1s", "check", "if !{ src 10.0.0.0/8 }", ""}
@@ -367,6 +380,12 @@ func corpus() []input {
 		// config-tcp-service: annotation filtered (fix C19-tcp-service-snippet-filter), global default not
 		{Kind: "updater", Keywords: k("tcp-request"), TCPAdds: ing("  tcp-request content reject"), TCPDflt: bp(" option tcplog")},
 		{Kind: "updater", Keywords: k("*"), TCPDflt: bp(" tcp-request content reject")},
+		// a blank only Unicode knows in front of the keyword: not the keyword for the filter, and
+		// must not become the keyword in the written configuration either
+		{Kind: "pipeline", Keywords: k("server"),
+			Services: []svcObj{{Name: "svc1"}},
+			Ingress: []ingObj{{Name: "ing1", Snippet: bp("\u00a0server evil 10.0.0.1:8080 #A1_0\n \u3000server evil2 10.0.0.2:8080 #A1_1"), Rules: []c1819.Rule{{Host: "h1.local", Path: "/", Service: "svc1", Port: 8080}}}}},
+		{Kind: "updater", Keywords: k("server"), Adds: ing("\u0085server evil 10.0.0.1:8080\n\t\u00a0 server x")},
 		// pipeline: service and ingress snippets on one backend, and a TCP service snippet
 		{Kind: "pipeline", Keywords: k("server"),
 			Services: []svcObj{{Name: "svc1"}},
@@ -654,7 +673,11 @@ func oracle(in input, obs observed) []fail {
 			}
 			if star {
 				fs = append(fs, fail{where + "-star-emitted", fmt.Sprintf("`*` is listed but section %q has the annotation line %q", name, l)})
-			} else if t := firstTok(l); set[t] {
+			} else if t, w := firstTok(l), haproxyWord(l); set[t] || set[w] {
+				// the RENDERED line, cut as HAProxy does (space, tab) and with every ASCII blank
+				if set[w] {
+					t = w
+				}
 				fs = append(fs, fail{where + "-keyword-emitted", fmt.Sprintf("section %q: line %q starts with the disabled keyword %q", name, l, t)})
 			}
 		}
